@@ -172,6 +172,7 @@ def accept(loopname, prog, events, res, res2):
     idles = {"i1": True, "i2": True} if variant == "full" else {}
     pending_read = {}  # watch name -> index of the readable event not yet served
     first_raise = None
+    raisers = []
     now = 0.0
     cb_index = []  # (index, name, t)
     idle_runs = {}  # name -> [indices]
@@ -233,15 +234,19 @@ def accept(loopname, prog, events, res, res2):
                 if not idles.get(name):
                     out.append(("idle-removed-never-runs", f"rm_{name}", f"idle callback {name} ran at t={t} after it had been removed"))
                 idle_runs.setdefault(name, []).append(k)
-            if first_raise is None and bodies.get(name) in ("exit", "boom"):
-                first_raise = (k, name, bodies[name])
+            if bodies.get(name) in ("exit", "boom"):
+                raisers.append(bodies[name])
+                if first_raise is None:
+                    first_raise = (k, name, bodies[name])
     # ---- how run() ended
     if first_raise is None:
         want = "ok"
     else:
         want = "ok" if first_raise[2] == "exit" else "Boom"
     feat = "+".join(sorted(set(bodies.values()) - {"nop"})) or "plain"
-    if res != want:
+    # several callbacks of one wake-up may raise before the loop actually stops: the statement does not say which one wins
+    also = {"ok" if r == "exit" else "Boom" for r in raisers} if len(raisers) > 1 else set()
+    if res != want and res not in also:
         if res.startswith("EXC:"):
             out.append(("only-callback-exceptions", res.split(":")[1], f"run() raised {res[4:]}; no callback raised that (expected: {want})"))
         elif res.startswith("HORIZON"):
@@ -403,7 +408,8 @@ def run(tier, R):
         "assumptions": [
             "the environment is a legal OS: a wait with a readable registered descriptor returns at once with a non-empty subset; otherwise time advances by exactly the time-out",
             "idle slack 12 ms of virtual time (covers twisted's 1/256 s idle emulation); tornado / trio time tolerance 1-2 ms",
-            "after a callback raised, only the way run() ends is judged; liveness clauses are judged on executions that reach the sentinel alarm",
+            "after a callback raised, only the way run() ends is judged; liveness clauses are judged on executions that reach the sentinel alarm; when several callbacks "
+            "raised before the loop stopped, the outcome of any of them is accepted",
             "raise-once is also checked with a second run() on select, asyncio and zmq (the other reactors cannot be restarted by this harness)",
         ],
     }
